@@ -90,15 +90,15 @@ def _find(world: World, token: bytes) -> tuple[typing.Any, Sock | None, AutoOrig
     quick=[{"proxy": px, "flavour": "sync", "_pre": f"sw == {sw}"} for px in PROXIES for sw in range(3)],
     thorough=[{"proxy": px, "flavour": fl, "_pre": f"sw == {sw} and sc == {sc}"} for px in PROXIES for fl in ("sync", "async")
               for sw in range(3) for sc in range(4)],
-    example=dict(sc=1, port=0, sw=1, prefer_h2=True, sni=False, diff=0, tgt=True),
-    require=("tls", "plain", "h2-spoken", "h1-spoken", "second-request-new-connection", "raw-target"),
+    example=dict(sc=1, port=0, sw=1, prefer_h2=True, sni=False, diff=0, tgt=True, prev=True),
+    require=("tls", "plain", "h2-spoken", "h1-spoken", "second-request-new-connection", "raw-target", "another-pool-before"),
     timeout={"quick": 300, "thorough": 900},
-    symbolic="scheme in {http,https,ws,wss}; port in {absent, default, other}; (http1,http2) switches; server ALPN preference; sni_hostname set or not; whether the requests carry the `target` extension (a raw request target); which component the second origin differs in",
+    symbolic="scheme in {http,https,ws,wss}; port in {absent, default, other}; (http1,http2) switches; server ALPN preference; sni_hostname set or not; whether the requests carry the `target` extension (a raw request target); whether another pool with the opposite HTTP/2 setting did a TLS handshake earlier in the same process; which component the second origin differs in",
     bounds="two sequential requests per run; proxy mode per shard (none, http proxy, https proxy, socks5)",
     outside="more than two origins per run; UDS; proxies with authentication (C11)",
     stubs=("AutoOrigin speaks h2 iff the client sends the HTTP/2 preface; ALPN selection by server preference among offered",),
 )
-def matrix(sc: int, port: int, sw: int, prefer_h2: bool, sni: bool, diff: int, tgt: bool) -> None:
+def matrix(sc: int, port: int, sw: int, prefer_h2: bool, sni: bool, diff: int, tgt: bool, prev: bool) -> None:
     """
     pre: 0 <= sc <= 3 and 0 <= port <= 2 and 0 <= sw <= 2 and 0 <= diff <= 2
     post: _
@@ -112,7 +112,19 @@ def matrix(sc: int, port: int, sw: int, prefer_h2: bool, sni: bool, diff: int, t
     prefer = "h2" if prefer_h2 else "http/1.1"
     use_sni = bool(sni)
     raw = bool(tgt)
-    with concrete(scheme, pmode, http1, http2, dv, prefer, use_sni, raw):
+    before = bool(prev)
+    if before and (raw or use_sni or dv):
+        return  # the "another pool was used before" dimension is explored with the plain variants
+    with concrete(scheme, pmode, http1, http2, dv, prefer, use_sni, raw, before):
+        if before:
+            # another pool of the same process, with the opposite HTTP/2 setting, has done a TLS handshake before:
+            # what a pool offers through ALPN depends on its own configuration only
+            w0 = World("none", "h2")
+            p0 = scen.make_pool(is_async, w0.net, ssl_context=FakeSSLContext("earlier"), http1=True, http2=not http2)
+            o0 = scen.Api(is_async).request(p0, "GET", "https://earlier.test/x", extensions={"timeout": {"pool": 0, "read": 9}})
+            P.check(o0.ok, "earlier-pool-ok", lambda: f"route:earlier-pool:{o0.kind()}")
+            scen.Api(is_async).close(p0)
+            P.cover("another-pool-before")
         _matrix(is_async, proxy, scheme, pmode, http1, http2, dv, prefer, use_sni, raw)
 
 
